@@ -16,6 +16,11 @@ streams
          before / after / inside their labelled objects.  The event history of the document goes to the
          driver; observation = for every \\ref node which object `idref['label']` *is* (identity, object
          index in document order), the printed number, every object's id.
+  parse9: one call of a macro with a random signature (leading `*`, mandatory / optional arguments; counter None, ''
+         or a name; numbered level or not) with labels, references and nested numbered macros inside its arguments
+         and events before / after it, parsed by the real `Macro.parse` on real classes; the driver turns the call into
+         events with the model of the protocol (`ParseEvents.parse`: preParse / preArgument / postArgument /
+         refstepcounter / postParse) and runs them; the whole final table is compared as in `lbl`.
   rerun9: the edit / re-run cycle of the command line: `Compile.run` renders another job and the previous
          version of the document in a scratch directory (both write their `.paux`), the document is edited
          (a block inserted in front, a labelled section removed) and parsed again with `Compile.parse`.
@@ -35,6 +40,8 @@ LEVEL_TEXT = ('Lean 4 theorems over a line-by-line model of Context.label / Cont
               'that each reference holds exactly the object current at its label event if the label is written anywhere (before or after the reference) '
               'and a placeholder that is no object otherwise; permutation_invariant, dangling_resolve_to_no_object, label_after_section_attaches_to_it, '
               'label_becomes_identifier, distinct_labels_distinct_ids and ref_number_is_target_number are proved at the same generality. '
+              'label_in_argument_names_the_macro / label_after_call_names_the_macro / starred_macro_is_current_and_unnumbered / uncountered_macro_is_transparent '
+              'are proved over a model of the event protocol of Macro.parse for every signature: a label in any argument of, or directly after, a numbered macro names it. '
               'resolve_with_restored / compile_resolves_current_document extend this to Context.restore and the loop of Compile.parse: labels pre-loaded from other jobs\' .paux files '
               'do not disturb the document\'s own references and the job\'s own stale .paux is ignored (own_paux_is_ignored; stale_own_labels_counterexample shows why it must be). '
               'The model is tied to the code by differential execution of operation histories on a real Context (exhaustive for short histories) and of '
@@ -43,7 +50,8 @@ LEVEL_NOTE = ('Trusted: Lean kernel (axioms propext, Classical.choice, Quot.soun
               'Modelled not verified: which macros call refstepcounter and when (tied by doc9), castLabel/castRef string normalisation, counters (C08), '
               'bibitem/cite userdata table, renderer templates.')
 TECHNIQUE = 'Lean 4 proof (invariant over operation histories, induction on the history) + differential correspondence (component and document level)'
-TRUSTED = ['the set of macros that call refstepcounter and the order of their events in a document is tied by the doc9 stream only',
+TRUSTED = ['when a macro becomes the current labelled object is modelled (ParseEvents, stream parse9); which counter each LaTeX construct carries and the '
+           'special invoke methods (eqnarray rows, captions, items) are tied by the doc9 stream only',
            'bibliography keys (bibitem.invoke / cite.bibitems) and rendered reference text are checked at document level only',
            'the glob / basename test of Compile.parse and the pickle format of .paux files are tied by the rerun9 stream only (format: C20)']
 ASSUMPTIONS = ['labels pairwise distinct (NF-doc); every \\ref node parses its argument once',
@@ -62,14 +70,15 @@ logging.disable(logging.CRITICAL)
 
 # ---------------------------------------------------------------- names
 
-_FORMS = ['lab%d', 'sec:%d', 'eq.%d', 'it-%d', 'Fig_%dX', 'sec basic facts %d']     # the last: a name of several words
+_FORMS = ['lab%d', 'sec:%d', 'eq.%d', 'it-%d', 'Fig_%dX', 'sec basic facts %d',     # a name of several words
+          "eq:a--b_%d", "it's_%d"]     # ligature / quote characters next to a character that is active in math mode
 
 
 def lname(k):
-    return _FORMS[k % 6] % k
+    return _FORMS[k % 8] % k
 
 
-_LNUM = re.compile(r'^(?:lab|sec:|eq\.|it-|Fig_|sec basic facts )(\d+)X?$')
+_LNUM = re.compile(r"^(?:lab|sec:|eq\.|it-|Fig_|sec basic facts |eq:a--b_|it's_)(\d+)X?$")
 
 
 def enc(name):
@@ -214,6 +223,8 @@ def generate(ctx):
     for i in range(8 if quick else 120):
         for c in rerun_cases(rng.randrange(1 << 30)):
             yield c
+    for i in range(1500 if quick else 20000):
+        yield Case('parse9', gen_parse_case(rng), {'seed': rng.randrange(1 << 30)})
 
 
 def corpus():
@@ -229,7 +240,12 @@ def corpus():
         Case('lbl', 'R1.0:5 R2.0:5 N1 L5 R3.0:5', {'seed': 6}, 'corpus'),             # a name of several words (style chosen by the seed)
         Case('lbl', 'R1.0:5 R2.0:5 N1 L5 R3.0:5', {'seed': 7}, 'corpus'),
         Case('lbl', 'R1.0:5 R2.0:5 N1 L5 R3.0:5', {'seed': 9}, 'corpus'),
-    ] + doc_cases(12345, False) + doc_cases(777, True) + doc_cases(23, False) + doc_cases(42, False) + rerun_cases(4242)
+    ] + doc_cases(12345, False) + doc_cases(777, True) + doc_cases(23, False) + doc_cases(42, False) + rerun_cases(4242) + [
+        Case('parse9', 'B N90 V90:1 R2.0:5 ; M 1 2 4 1 ; A 1 0 ; A 0 1 L5 R1.0:6 ; A 0 0 ; A 0 1 N7 V7:1 L6 ; E R3.0:5 L9', {'seed': 1}, 'corpus'),
+        Case('parse9', 'B N90 V90:1 L12 ; M 1 2 6 1 ; A 1 1 ; A 0 1 L3 ; E L38 R2.0:38 R3.0:3', {'seed': 2}, 'corpus'),   # starred: current, no number
+        Case('parse9', 'B N90 V90:1 ; M 1 0 4 1 ; A 0 1 L7 R1.0:7 ; E L17', {'seed': 3}, 'corpus'),                       # no counter: transparent
+        Case('parse9', 'B N90 V90:1 ; M 1 2 3 0 ; E L17 R1.0:17', {'seed': 4}, 'corpus'),                                 # no arguments, level not numbered
+    ]
     # seeds 23, 42: eqnarray* before an eqnarray whose later rows carry labels; labels of several words
 
 
@@ -241,7 +257,8 @@ def _refd_and_labelled(line):
 
 
 def nontrivial(o):
-    return o.spec not in ('-', '') and not o.impl.startswith('err') and _refd_and_labelled(o.case.line)
+    line = (o.aux[0] if o.aux else '') if o.case.stream == 'parse9' else o.case.line
+    return o.spec not in ('-', '') and not o.impl.startswith('err') and _refd_and_labelled(line)
 
 
 # ---------------------------------------------------------------- implementation side: lbl
@@ -334,6 +351,15 @@ def run_lbl(line, seed):
             if (op[1], op[2]) not in keys:
                 keys.append((op[1], op[2]))
             ctx.ref(refobj(op[1]), slotname(op[2]), lstr(op[3]))
+    for n in nodes:
+        stub(n)
+    return state_string(ctx, keys, nodes, stubs, refobjs, lnum)
+
+
+def state_string(ctx, keys, nodes, stubs, refobjs, lnum):
+    """the whole cross-reference state in the format of the Lean driver's `stateStr`"""
+    import plasTeX
+    stub = stubs.get
     byid = {id(s): n for n, s in stubs.items()}
 
     def target(v):
@@ -943,9 +969,138 @@ def body_of(s):
     return s.split(': ', 1)[1] if (s.startswith('resolved') and ': ' in s) else s
 
 
+# ---------------------------------------------------------------- stream parse9: the event protocol of Macro.parse
+
+def gen_parse_case(rng):
+    """one call of a macro with a random signature (leading `*`, mandatory and optional arguments), a counter that is
+    None / '' / a name, labels, references and nested numbered macros inside its arguments, and events around it"""
+    labels = iter(rng.sample(range(1, 40), 12))
+    used, refno, nested = [], [0], [1]
+
+    def content(n):
+        ops = []
+        for _ in range(n):
+            r = rng.random()
+            if r < 0.45:
+                l = next(labels); used.append(l); ops.append('L%d' % l)
+            elif r < 0.8:
+                refno[0] += 1
+                l = rng.choice(used) if used and rng.random() < 0.5 else rng.choice([rng.randint(1, 39), 50 + rng.randint(0, 3)])
+                ops.append('R%d.0:%d' % (refno[0], l))
+            elif nested[0] < 6:
+                nested[0] += 1
+                ops += ['N%d' % nested[0], 'V%d:1' % nested[0]]
+        return ops
+    before = []
+    if rng.random() < 0.7:
+        before += ['N90', 'V90:1']
+        if rng.random() < 0.4:
+            l = next(labels); used.append(l); before.append('L%d' % l)
+    before += content(rng.randint(0, 2)) if rng.random() < 0.5 else []
+    before = [w for w in before if not (w[0] == 'N' and w != 'N90') and not (w[0] == 'V' and w != 'V90:1')]
+    ctr = rng.choice([0, 1, 2, 2, 2])
+    segs = ['B ' + ' '.join(before), 'M 1 %d %d %d' % (ctr, rng.randint(1, 9), 0 if rng.random() < 0.15 else 1)]
+    nargs = rng.randint(0, 3)
+    for i in range(nargs):
+        if i == 0 and rng.random() < 0.4:
+            segs.append('A 1 %d' % rng.randint(0, 1))
+        else:
+            optional = rng.random() < 0.35
+            given = 0 if optional and rng.random() < 0.4 else 1
+            segs.append(('A 0 %d ' % given) + (' '.join(content(rng.randint(0, 3))) if given else ''))
+    after = []
+    if rng.random() < 0.7:
+        l = next(labels); used.append(l); after.append('L%d' % l)
+    after += [w for w in content(rng.randint(0, 3)) if w[0] not in 'NV']
+    segs.append('E ' + ' '.join(after))
+    line = ' ; '.join(x.strip() for x in segs)
+    # optional arguments are marked in meta (the model does not need to know)
+    return line
+
+
+def node_class_name(n):
+    return 'T' if n == 1 else 'Nbefore' if n == 90 else 'N' + 'abcdefghij'[n]
+
+
+def run_parse9(case, opsline):
+    from plasTeX.TeX import TeX
+    from plasTeX import TeXDocument, Command
+    segs = [x.split() for x in case.line.split(';')]
+    rng = random.Random(case.meta.get('seed', 0))
+    doc = TeXDocument()
+    tex = TeX(doc)
+    ctx = doc.context
+    classes = {}
+
+    def text_of(words):
+        out = []
+        for w in words:
+            if w[0] == 'L':
+                out.append('\\label{%s}' % lname(int(w[1:])))
+            elif w[0] == 'R':
+                r, l = w[1:].split(':')
+                r = int(r.split('.')[0])
+                name = 'R' + 'abcdefghijklmnopqrstuvwxyz'[r]
+                if name not in classes:
+                    classes[name] = type(name, (Command,), {'args': 'label:idref'})
+                out.append('\\%s{%s}' % (name, lname(int(l))))
+            elif w[0] == 'N':
+                n = int(w[1:])
+                name = node_class_name(n)
+                if name not in classes:
+                    ctx.newcounter('ctr' + name)
+                    classes[name] = type(name, (Command,), {'counter': 'ctr' + name})
+                out.append('\\%s ' % name)
+            elif w[0] == 'V':
+                pass
+        return ' x '.join(out)
+    before, m, args, after = segs[0][1:], segs[1][1:], [x[1:] for x in segs[2:-1]], segs[-1][1:]
+    ctr, v, lvl = int(m[1]), int(m[2]), int(m[3])
+    argspec, calltext = [], '\\T'
+    for i, a in enumerate(args):
+        if a[0] == '1':
+            argspec.append('*')
+            calltext += '*' if a[1] == '1' else ''
+        elif a[1] == '0':
+            argspec.append('[ a%d ]' % i)                       # an optional argument that is not given
+        else:
+            optional = rng.random() < 0.4
+            argspec.append('[ a%d ]' % i if optional else 'a%d' % i)
+            body = ' y ' + text_of(a[2:]) + ' '
+            calltext += ('[%s]' if optional else '{%s}') % body
+    attrs = {'args': ' '.join(argspec), 'counter': {0: None, 1: '', 2: 'ctrT'}[ctr]}
+    if not lvl:
+        attrs['level'] = 50          # neither `secnumdepth >= level` nor `level > ENDSECTIONS_LEVEL`
+    ctx.newcounter('ctrT')
+    ctx.counters['ctrT'].setcounter(v - 1)
+    classes['T'] = type('T', (Command,), attrs)
+    src = 'Start ' + text_of(before) + ' ' + calltext + ' ' + text_of(after) + ' end.'
+    for name, cls in classes.items():
+        ctx.addGlobal(name, cls)
+    case.meta['tex'] = src
+    case.meta['signature'] = attrs['args']
+    tex.input(src)
+    tex.parse()
+    ops = parse_ops(opsline)
+    keys, nodes = [], set()
+    for op in ops:
+        if op[0] in 'NV':
+            nodes.add(op[1])
+        elif op[0] == 'R' and (op[1], op[2]) not in keys:
+            keys.append((op[1], op[2]))
+    found = {}
+    for n in walk(doc, set()):
+        found.setdefault(n.nodeName, n)
+    stubs = {n: found[node_class_name(n)] for n in nodes | {1} if node_class_name(n) in found}
+    refobjs = {r: found['R' + 'abcdefghijklmnopqrstuvwxyz'[r]] for r, _ in keys}
+    return state_string(ctx, keys, nodes, stubs, refobjs, lnum)
+
+
 def impl(case, aux):
     try:
-        if case.stream == 'lbl':
+        if case.stream == 'parse9':
+            body = run_parse9(case, aux[0] if aux else '')
+        elif case.stream == 'lbl':
             body = run_lbl(case.line, (case.meta or {}).get('seed', 0))
         elif case.stream == 'rerun9':
             body = run_rerun9(case)
@@ -968,9 +1123,10 @@ def judge(o):
         o.note = 'the implementation raised'
         return
     obs = body_of(o.impl)
-    if c.stream == 'lbl':
+    if c.stream in ('lbl', 'parse9'):
+        opsline = c.line if c.stream == 'lbl' else (o.aux[0] if o.aux else '')
         o.corr_ok = (obs == o.model)
-        o.prop_ok = (o.spec == '-' or (obs.startswith('I ') and view_of_state(obs, c.line) == o.spec))
+        o.prop_ok = (o.spec == '-' or (obs.startswith('I ') and view_of_state(obs, opsline) == o.spec))
         return
     # doc9
     secs = dict((p.strip().split(' ', 1) + [''])[:2] for p in obs.split(' | '))
@@ -1002,7 +1158,7 @@ def judge(o):
 def shrink(ctx, o, evaluate):
     """delete operations while the property still fails (doc9 cases are first re-run as bare histories)"""
     best = o
-    if o.case.stream == 'rerun9':
+    if o.case.stream in ('rerun9', 'parse9'):
         return o
     if o.case.stream == 'doc9':
         r = evaluate([Case('lbl', o.case.line, {'seed': 0}, 'shrink')])[0]
@@ -1029,7 +1185,7 @@ def search(ctx, evaluate, corr_bad):
     rng = random.Random(ctx.seed + 7919)
     cases = []
     for o in corr_bad[:40]:
-        ops = parse_ops(o.case.line)
+        ops = parse_ops((o.aux[0] if o.aux else '') if o.case.stream == 'parse9' else o.case.line)
         # well-formed projections: keep first label event per label and first ref per key
         seenl, seenk, wf = set(), set(), []
         for op in ops:
@@ -1047,6 +1203,7 @@ def search(ctx, evaluate, corr_bad):
         cases += doc_cases(rng.randrange(1 << 30), False)
     for _ in range(20):
         cases += rerun_cases(rng.randrange(1 << 30))
+    cases += [Case('parse9', gen_parse_case(rng), {'seed': rng.randrange(1 << 30)}, 'search') for _ in range(3000)]
     cases = [c for c in cases if c.line]
     bad = [o for o in evaluate(cases) if not o.prop_ok]
     if bad:
@@ -1164,6 +1321,12 @@ WITNESS_DOCS = {
         '\\documentclass{article}\\begin{document}\\section{S}\\label{sec_1} See \\ref{eq_energy} and \\ref{sec_1}.\n'
         '\\begin{equation} E_0 = mc^2 \\label{eq_energy} \\end{equation} Again \\ref{eq_energy}, \\pageref{eq_energy}.\\end{document}',
         {'eq_energy': ('equation', '1', 3), 'sec_1': ('section', '1', 1)}),
+    # D15: a name read in math mode went through the typographic substitutions (`--` -> en dash, `'` -> curly quote)
+    'd15_label_with_ligature_in_equation': (
+        "\\documentclass{article}\\begin{document}See \\ref{eq:a--b_c} and \\ref{it's_x}.\n"
+        "\\begin{equation} x \\label{eq:a--b_c} \\end{equation}\\begin{equation} y \\label{it's_x} \\ref{eq:a--b_c} \\end{equation}"
+        " Again \\ref{eq:a--b_c}, \\pageref{it's_x}.\\end{document}",
+        {'eq:a--b_c': ('equation', '1', 3), "it's_x": ('equation', '2', 2)}),
     'd14_label_in_macro_argument': (
         '\\documentclass{article}\\newcommand{\\beq}[1]{\\begin{equation}#1\\end{equation}}\\begin{document}\\ref{a_b^c}'
         '\\beq{x_1 \\label{a_b^c} y_2 \\ref{a_b^c}} \\ref{a_b^c}\\end{document}',
